@@ -292,7 +292,7 @@ class Check:
         self.log("TLC simulate %s/%s: %d behaviours in %.1fs" % (module, cfg, len(beh), r.wall))
         return beh
 
-    def tlc_validate(self, module, cfg, trace_path, timeout=900, files=None, workers=1, dfs=False, xss=True, heap=None):
+    def tlc_validate(self, module, cfg, trace_path, timeout=900, files=None, workers=1, dfs=False, xss=True, heap="4g"):
         """Trace / record validation. Returns TLCResult; kind ok = accepted."""
         f = dict(files or {})
         f["trace.ndjson"] = trace_path
